@@ -18,6 +18,8 @@ pub fn def() -> PropDef {
         needed_probes: &["c04_awaiter_checked", "c04_after_stop_checked", "c04_before_stop_checked", "c04_late_clone_awaited", "c04_failed_termination_awaited"],
         quick_runs: 30_000,
         thorough_runs: 2_000_000,
+        block: 1,
+        flavours: &["tokio"],
     }
 }
 
